@@ -228,6 +228,32 @@ func present(entry string, good bool, total int, pres string) string {
 	return s
 }
 
+// presentMinimal: a bare root element of the kind the unverified decoder expects (good) or of the other kind, padded
+// with trailing newlines to total octets.
+func presentMinimal(entry string, good bool, total int, pres string) string {
+	tag := "Response"
+	if (entry == "predecodeLogout") == good {
+		tag = "LogoutResponse"
+	}
+	// the padding is INSIDE the root element: losing the tail of the document cannot go unnoticed
+	open := []byte(`<samlp:` + tag + ` xmlns:samlp="` + idp.NSProtocol + `" ID="_m" Version="2.0">`)
+	end := []byte(`</samlp:` + tag + `>`)
+	var out bytes.Buffer
+	pad := bytes.Repeat([]byte("\n"), total-len(open)-len(end))
+	if pres == "raw" {
+		out.Write(open)
+		out.Write(pad)
+		out.Write(end)
+	} else {
+		fw, _ := flate.NewWriter(&out, levelOf[pres])
+		fw.Write(open)
+		fw.Write(pad)
+		fw.Write(end)
+		fw.Close()
+	}
+	return base64.StdEncoding.EncodeToString(out.Bytes())
+}
+
 // presentInner builds an unsigned Response whose EncryptedAssertion plaintext is a signed assertion
 // padded with trailing whitespace to total octets and presented raw or DEFLATE-compressed.
 func presentInner(good bool, total int, pres string) string {
@@ -370,6 +396,8 @@ func (Inflate) Run(c *orch.Case) *orch.Outcome {
 	switch in.Size {
 	case "natural":
 		total = 0
+	case "lim_min":
+		total = eff
 	case "lim-1":
 		total = eff - 1
 	case "lim":
@@ -399,12 +427,16 @@ func (Inflate) Run(c *orch.Case) *orch.Outcome {
 	var enc string
 	if in.Entry == "validateEncInner" {
 		enc = presentInner(in.Good, total, in.Pres)
+	} else if in.Size == "lim_min" {
+		enc = presentMinimal(in.Entry, in.Good, total, in.Pres)
 	} else {
 		enc = present(in.Entry, in.Good, total, in.Pres)
 	}
 
 	o := &iObs{Size: total, InputKiB: len(enc) >> 10}
-	runtime.GC()
+	if total > 8<<20 {
+		runtime.GC() // keeps the resident set down after the large cases; TotalAlloc is cumulative and unaffected
+	}
 	var m0, m1 runtime.MemStats
 	runtime.ReadMemStats(&m0)
 	res, data, errc := callEntry(sp, in.Entry, enc)
@@ -415,6 +447,8 @@ func (Inflate) Run(c *orch.Case) *orch.Outcome {
 		twin := ""
 		if in.Entry == "validateEncInner" {
 			twin = presentInner(in.Good, total, "raw")
+		} else if in.Size == "lim_min" {
+			twin = presentMinimal(in.Entry, in.Good, total, "raw")
 		} else {
 			twin = present(in.Entry, in.Good, total, "raw")
 		}
